@@ -97,9 +97,9 @@ def partitions(tier, seed):
             if cc in ccs:
                 continue
             for label, data in G.commands(cc):
-                if label.startswith("decrypt"):
+                if label in ("decrypt", "decrypt-2nd"):
                     parts.extend(shape_parts("C01", PROP, sp.cmd_key(), "%s-%s" % (sp.cc_name(cc), label), data))
             for label, enc, data in G.responses(cc):
-                if label.startswith("encrypt"):
+                if label in ("encrypt", "encrypt-1st"):
                     parts.extend(shape_parts("C01", PROP, sp.rsp_key(), "%s-%s" % (sp.cc_name(cc), label), data, cc=cc, enc=enc))
     return parts
